@@ -27,7 +27,7 @@ ASSUMPTIONS = ["the exception message is not checked; other exception types are 
 def overlap_case(draw):
     atol = draw(st.sampled_from([0.01, 0.05, 0.1]))
     kind = draw(st.sampled_from(["chain", "chain", "zigzag", "zigzag", "star"]))
-    alphabet = draw(st.sampled_from([["C", "N"], ["N", "C"], ["C", "C"], ["O", "H"]]))
+    alphabet = draw(st.sampled_from([["C", "N"], ["N", "C"], ["C", "C"], ["O", "H"], ["C", "Cl"], ["Na", "N"], ["Si", "S"]]))
     pos, els = [], []
     if kind == "star":
         k = draw(st.integers(2, 5))
